@@ -472,7 +472,7 @@ func (db *SpecDB) loadFile(path string, pkgPath string, marker bool) error {
 				default:
 					return fmt.Errorf("%s: unknown loop clause %q", where, f[1])
 				}
-			case "assert", "cut", "apply", "fork":
+			case "assert", "cut", "apply", "fork", "reach":
 				// cut <name>: expr
 				f := strings.SplitN(rest, " ", 2)
 				if len(f) < 2 {
